@@ -116,7 +116,7 @@ def run(ctx):
         ls = [ctx.rng.choice(lits) for _ in range(k)]
         carved = any(len(pep440.release_of(x)) > 2 for x in ls)
         for neg in (False, True):
-            cases.append(("python_version %s '%s'" % ('not in' if neg else 'in', ' '.join(ls)),
+            cases.append(("python_version %s '%s'" % ('not in' if neg else 'in', ctx.rng.choice([' ', ' ', '  ', '\t', '\n', ' \t']).join(ls)),
                           (lambda xy, ls=ls, neg=neg: pep440.holds_in(xy, ls, neg)), carved, ('in', neg, k)))
     expr_correspondence(ctx, sess, keys, [c[0] for c in cases])
     regs = {}
